@@ -7,6 +7,7 @@
 #include "tape.h"
 #include "pipefix.h"
 #include "upipe/uref_block_flow.h"
+#include "upipe/uref_clock.h"
 #include "upipe-modules/upipe_aggregate.h"
 #include "upipe-modules/upipe_chunk_stream.h"
 #include "upipe-ts/upipe_ts_sync.h"
@@ -18,10 +19,11 @@
 enum { K_AGG, K_CHUNK, K_TSSYNC, K_TSCHECK, K_TSALIGN_SYNC, K_TSALIGN_CHECK, K_N };
 static const char *const kname[] = { "aggregate", "chunk_stream", "ts_sync", "ts_check", "ts_align(sync)", "ts_align(check)" };
 
-enum { CL_AGG, CL_CHUNK, CL_TSSYNC, CL_TSCHECK, CL_TSALIGN, CL_CUT_INSIDE_UNIT, CL_EMPTY_BUF, CL_ONEBYTE_BUF, CL_SEGMENTED, CL_GARBAGE, CL_FALSE_SYNC, CL_TAIL_DROPPED, CL_CUTTINGS_DIFFER, CL_RELEASE_MID, CL_AGG_FDSIZE, CL_SPLIT_HEAD, CL_CHUNK_RECONF };
+enum { CL_AGG, CL_CHUNK, CL_TSSYNC, CL_TSCHECK, CL_TSALIGN, CL_CUT_INSIDE_UNIT, CL_EMPTY_BUF, CL_ONEBYTE_BUF, CL_SEGMENTED, CL_GARBAGE, CL_FALSE_SYNC, CL_TAIL_DROPPED, CL_CUTTINGS_DIFFER, CL_RELEASE_MID, CL_AGG_FDSIZE, CL_SPLIT_HEAD, CL_CHUNK_RECONF, CL_AGG_REDEF };
 static const char *const class_names[] = { "aggregate", "chunk_stream", "ts_sync", "ts_check", "ts_align", "buffer_boundary_inside_output_unit",
     "empty_buffer", "one_byte_buffer", "segmented_buffer", "garbage_before_or_between_packets", "false_sync_in_payload", "unaligned_tail_dropped",
-    "cuttings_differ", "release_before_end_of_stream", "aggregate_flow_def_announces_block_size", "buffer_is_head_of_a_split_block", "chunk_stream_set_mtu_before_release", NULL };
+    "cuttings_differ", "release_before_end_of_stream", "aggregate_flow_def_announces_block_size", "buffer_is_head_of_a_split_block", "chunk_stream_set_mtu_before_release",
+    "aggregate_flow_def_set_again_in_mid_stream", NULL };
 
 #define MAXSTREAM 4096
 #define MAXUNITS (MAXSTREAM + 32)
@@ -40,6 +42,7 @@ struct ctx {
     int P, N;               /* packet size, sync count */
     int mtu, align;         /* agg MTU / chunk mtu + align */
     int fdsize;             /* agg: block size announced in the flow definition (0: none) */
+    int refd_at;            /* agg: a changed flow definition is set again before this buffer (-1: never); what is pending stays pending */
     int mtu2, align2;       /* chunk_stream: configuration set after the last buffer, before the release (0: unchanged) */
     int ret;
     uint32_t classes;
@@ -192,6 +195,16 @@ static void run_pipe(struct ctx *c, const struct cutting *cut, struct units *out
     upipe_set_output(p, sink);
     int pos = 0;
     for (int i = 0; i < cut->n && i < cut->feed && !c->ret; i++) {
+        if (i == c->refd_at && i > 0) {
+            /* the flow definition changes in mid-stream (another latency): octets already accepted stay accepted */
+            struct uref *fd2 = pfx_flow_def_block(pfx, "foo.");
+            if (fd2 != NULL && c->fdsize > 0) uref_block_flow_set_size(fd2, c->fdsize);
+            if (fd2 != NULL) uref_clock_set_latency(fd2, 27000);
+            int e2 = upipe_set_flow_def(p, fd2);
+            uref_free(fd2);
+            if (!ubase_check(e2)) FAIL("flowdef", "%s refused a block flow definition in mid-stream (%d)", kname[c->kind], e2);
+            c->classes |= 1u << CL_AGG_REDEF;
+        }
         struct uref *uref = mk_buf(c, c->stream + pos, cut->len[i], cut->nseg[i]);
         pos += cut->len[i];
         if (!uref) { c->ret = vp_internal(c->rep, "mk_buf"); break; }
@@ -239,6 +252,7 @@ static int run(const uint8_t *tp_, size_t len, struct vp_report *rep, unsigned f
         c->classes |= 1u << CL_CHUNK_RECONF;
     }
     { unsigned q = (cfgb / (K_N * 2)) % 4; c->fdsize = q == 0 ? 0 : q == 1 ? 1 : q == 2 ? (c->mtu + 1) / 2 : c->mtu; if (c->kind == K_AGG && c->fdsize) c->classes |= 1u << CL_AGG_FDSIZE; }
+    c->refd_at = (c->kind == K_AGG && (cb + cfgb * 7) % 5 < 2) ? ((cb >> 3) + cfgb) % 8 : -1;      /* (uses no tape octet) */
     h = vp_hash_mix(h, cfgb); h = vp_hash_mix(h, cb); h = vp_hash_mix(h, c->align);
     if (c->kind >= K_TSALIGN_SYNC) { c->P = 188; c->N = 2; }   /* ts_align exposes neither setter: defaults */
     bool is_ts = c->kind >= K_TSSYNC;
